@@ -180,6 +180,21 @@ def run(rep, tier, seed):
     seen = {}
     for c in r.tagged("HIST"):
         seen.setdefault(json.dumps(c["hist"], sort_keys=True), c)
+    # longer histories: random walks of the same model (3 instances), the action properties checked on every step
+    dl = 7 if tier == "quick" else 10
+    rs = common.run_tlc("MC_C13", (base % (dl, "FALSE", "TRUE")).replace("MaxInst = 2", "MaxInst = 3") + "CONSTRAINT Emit\n", timeout=3000, workers=4,
+                        simulate="num=%d" % (25 if tier == "quick" else 400), extra=["-depth", str(dl + 2), "-seed", str(seed + 13)])
+    common.require_ok(rs, "MC_C13 (random walks)")
+    if rs.violated:
+        raise common.MachineryError("MC_C13 (random walks): the intended specification violates %s" % rs.violated)
+    rep.add_tlc(rs, "MC_C13 random API histories of length %d, up to 3 instances (simulation)" % dl)
+    nlong = 0
+    for c in rs.tagged("HIST"):
+        k = json.dumps(c["hist"], sort_keys=True)
+        if k not in seen:
+            seen[k] = c
+            nlong += 1
+    rep.cov["long_histories"] = nlong
     cases = list(seen.values())
     res = realrun.pmap(run_history, cases, chunk=20)
     for c, (st, why) in zip(cases, res):
